@@ -30,9 +30,9 @@ theorem loadform_eval_roundtrip (x : Obj) (h : wf x = true) : eval (loadForm x) 
 /-- a non-trivial instance of the hypothesis: `(a (b . "s") #(1 x))` with a hash table
     `{k → (q), "s" → 2}` and a 2×1 array inside -/
 def sampleObj : Obj :=
-  .cons (.sym "a") (.cons (.cons (.sym "b") (.str "s")) (.cons (.vec (.cons (.int 1) (.cons (.sym "x") .nil)))
+  .cons (.sym "a") (.cons (.cons (.sym "b") (.str "s")) (.cons (.vec true (.cons (.int 1) (.cons (.sym "x") .nil)))
     (.cons (.hash (.cons (.cons (.sym "k") (.cons (.sym "q") .nil)) (.cons (.cons (.str "s") (.int 2)) .nil)))
-      (.cons (.arr (.cons (.int 2) (.cons (.int 1) .nil)) (.cons (.cons (.int 1) .nil) (.cons (.cons (.sym "y") .nil) .nil)))
+      (.cons (.arr false (.cons (.int 2) (.cons (.int 1) .nil)) (.cons (.cons (.int 1) .nil) (.cons (.cons (.sym "y") .nil) .nil)))
         .nil))))
 example : wf sampleObj = true := by decide
 example : eval (loadForm sampleObj) = .ok sampleObj := loadform_eval_roundtrip _ (by decide)
